@@ -575,7 +575,7 @@ func genTypeHistory(r *rand.Rand, maxLen int) History {
 		}
 	}
 	items = append(items, late...)
-	for len(items) > maxLen-2 {
+	for len(items)+len(late)+1 > maxLen {
 		items = items[1:]
 		origin += "+truncated"
 	}
